@@ -496,6 +496,7 @@ struct ProjData
 {
   std::vector<std::vector<double>> pts;
   std::vector<int> pclass;
+  std::vector<char> isVertex; // the point is a vertex of the mesh (coordinates copied from the mesh)
   std::vector<int> active, zdef;
 };
 
@@ -582,6 +583,7 @@ static void checkProjection(Rng& r, Ctx& c, const MeshCase& mc, const AMesh* mes
     }
     pd.pts.push_back(p);
     pd.pclass.push_back(cls);
+    pd.isVertex.push_back(wantClass == PC_VERTEX ? 1 : 0);
   };
   // first half: no sample outside the bounding box of the mesh; second half: all classes mixed
   int nhalf = c.thorough() ? 40 : 20;
@@ -665,6 +667,7 @@ static void checkProjection(Rng& r, Ctx& c, const MeshCase& mc, const AMesh* mes
       out.push_back({o, k, ok, err, tol, d});
       if (!ok) nfail++;
     };
+    const bool plainTurbo = dynamic_cast<const MeshETurbo*>(mesh) != nullptr && (mc.kind == MK_TURBO || mc.kind == MK_TURBO_COVA);
     for (int i = 0; i < np; i++)
     {
       int row = rmap[i];
@@ -680,6 +683,10 @@ static void checkProjection(Rng& r, Ctx& c, const MeshCase& mc, const AMesh* mes
         continue;
       }
       bool mustExist = pc != PC_HULL; // on the hull the property does not decide; validity is checked if a row exists
+      // ... except for the NODES of the grid behind an unmasked turbo mesh: MeshETurbo::resetProjMatrix documents "In the case
+      // the target coordinate is on the edge of the grid try to shift the point down by one node", i.e. the nodes of the outer
+      // border belong to the mesh like every other node (projecting the grid that defines the mesh on that mesh is the basic use)
+      if (pc == PC_HULL && pd.isVertex[i] && plainTurbo) { mustExist = true; kc += ":grid-node-on-border"; }
       if (rw.empty())
       {
         if (mustExist) add("proj-inside-nonempty", kc + ":row-empty", false, 1, 0, fmt("sample %d row %d p=%s", i, row, jvec(pd.pts[i]).c_str()));
@@ -975,6 +982,51 @@ static void checkConditional(Rng& r, Ctx& c, const MeshCase& mc, const std::vect
     std::vector<LD> want = applyA(xl, false), mag = applyA(xa, true);
     double q = ratioVec(flat(yout), want, mag, cfA);
     c.check("cond-evalDirect", "C15:cond:evalDirect:" + cls, q <= 1, q, 1);
+  }
+  // the same matrix-free operator with a variance of measurement error PER DATUM (SPDE::_init fills the vector sample by sample
+  // from the ELoc::V column): D = diag(v_i), A = blockdiag(Q_k) + [P..P]' D^-1 [P..P], rhs = P' D^-1 z.
+  // Drawn from a stream of its own so that the other draws of the case are unchanged.
+  if (nd >= 2)
+  {
+    Rng r2(c.seed, "C15hetero", (uint64_t)c.icase);
+    std::vector<double> vh(nd);
+    for (auto& v : vh) v = sigma2 * r2.loguni(0.2, 5.);
+    PrecisionOpMultiConditional ph;
+    bool okh = true;
+    for (int k = 0; k < K; k++) okh = okh && ph.push_back(blk[k].qmf, &proj) == 0;
+    if (okh)
+    {
+      ph.setVarianceDataVector(VectorDouble(vh));
+      auto applyAH = [&](const std::vector<LD>& x, bool absval) {
+        std::vector<LD> y(N, 0), t(nd, 0);
+        for (int k = 0; k < K; k++)
+        {
+          std::vector<LD> xk(x.begin() + (size_t)k * n, x.begin() + (size_t)(k + 1) * n);
+          std::vector<LD> qk = mulv(*blk[k].Q, xk, false, absval), pk = mulv(P, xk, false, absval);
+          for (int i = 0; i < n; i++) y[(size_t)k * n + i] = qk[i];
+          for (int s = 0; s < nd; s++) t[s] += pk[s];
+        }
+        for (int s = 0; s < nd; s++) t[s] /= (LD)vh[s];
+        std::vector<LD> u = mulv(P, t, true, absval);
+        for (int k = 0; k < K; k++) for (int i = 0; i < n; i++) y[(size_t)k * n + i] += u[i];
+        return y;
+      };
+      std::vector<std::vector<double>> xin(K, std::vector<double>(n)), yout(K, std::vector<double>(n, 0.));
+      for (auto& e : xin) for (auto& v : e) v = r2.normal();
+      ph.evalDirect(xin, yout);
+      std::vector<LD> xl = toLD(flat(xin)), xa(N);
+      for (int i = 0; i < N; i++) xa[i] = std::fabs(xl[i]);
+      std::vector<LD> want = applyAH(xl, false), mag = applyAH(xa, true);
+      double q = ratioVec(flat(yout), want, mag, cfA);
+      c.check("cond-evalDirect-hetero", "C15:cond:evalDirect:per-datum-variance:" + cls, q <= 1, q, 1);
+      std::vector<LD> zh(nd), zha(nd);
+      for (int i = 0; i < nd; i++) { zh[i] = (LD)z[i] / (LD)vh[i]; zha[i] = std::fabs(zh[i]); }
+      std::vector<LD> bh1 = mulv(P, zh, true), bhm1 = mulv(P, zha, true, true), bh, bhm;
+      for (int k = 0; k < K; k++) { bh.insert(bh.end(), bh1.begin(), bh1.end()); bhm.insert(bhm.end(), bhm1.begin(), bhm1.end()); }
+      std::vector<std::vector<double>> rh = ph.computeRhs(z);
+      double qr = (int)rh.size() == K ? ratioVec(flat(rh), bh, bhm, 8. * (nd + 4)) : INFINITY;
+      c.check("cond-rhs-hetero", "C15:cond:computeRhs:per-datum-variance:" + cls, qr <= 1, qr, 1);
+    }
   }
   // solves
   std::vector<std::vector<double>> xcgv(K, std::vector<double>(n, 0.)), xchv(K, std::vector<double>(n, 0.));
